@@ -16,32 +16,34 @@ PROPS = ["C11"]
 ENGINE = "spec/PullPipe: monitor (iterator reference semantics, end rule, fusedness, size-hint bracket, bounded progress) + implementation-shaped model of every pull combinator (TLC exhaustive over trees x scripts x Pending placements), all TLC behaviours replayed into the real combinators, TLC trace validation of replayed and seeded random runs"
 MANIFEST = {
     "C11": {
-        "text": "TLC exhaustively checks the transcribed state machines of map, filter, filter_map, filter_map_async, inspect, enumerate, skip, skip_while, take, take_while, fuse, flat_map, flatten, flat_map_stream, flatten_stream, chain, zip, zip_longest, cross_singleton, stream/stream_compat/poll_fn/from_fn/iter/once/empty sources and adapters and the consuming futures collect, for_each, next, send_push, send_sink, accumulate_all with Fold/FoldFrom/Reduce (plus 2-level compositions) against the reference iterator semantics for all item sequences <=3 over {0,1,2} per upstream x every placement of <=2 Pendings (binary/compositions: smaller bounds, see evidence jobs); every TLC behaviour is replayed into the real combinators and TLC validates the recorded traces (items = reference prefix, end only when complete, fused pulls stay ended, size hints bracket the remaining items, no stall, no poll of a non-fused upstream after its end); seeded random deeper trees with longer scripts are validated the same way.",
-        "note": "Upstreams are scripted doubles with truthful size hints (exact / loose / unknown); closures come from a fixed vocabulary defined identically in TLA+ and Rust; each level of a tree is boxed behind a forwarding adapter. Known finding: FilterMapAsync::size_hint ignores the in-flight future.",
+        "text": "TLC exhaustively checks the transcribed state machines of map, filter, filter_map, filter_map_async, inspect, enumerate, skip, skip_while, take, take_while, fuse, flat_map, flatten, flat_map_stream, flatten_stream, chain, zip, zip_longest, cross_singleton, stream/stream_compat/poll_fn/from_fn/iter/once/empty sources and adapters and the consuming futures collect, for_each, next, send_push, send_sink, accumulate_all with Fold/FoldFrom/Reduce (plus 2-level compositions) against the reference iterator semantics for all item sequences over {0,1,2} per upstream x every placement of Pendings (quick: <=3 items with <=1 Pending and <=2 items with <=2 Pendings; thorough: <=4 items with <=2 Pendings; binary/compositions: smaller bounds, see evidence coverage.bounds); every TLC behaviour is replayed into the real combinators and TLC validates the recorded traces (items = reference prefix, end only when complete, fused pulls stay ended, size hints bracket the remaining items, no stall, no poll of a non-fused upstream after its end); seeded random deeper trees with longer scripts are validated the same way.",
+        "note": "Upstreams are scripted doubles with truthful size hints (exact / loose / unknown); closures come from a fixed vocabulary defined identically in TLA+ and Rust; each level of a tree is boxed behind a forwarding adapter.",
         "technique": "TLA+ spec model-checked with TLC + conformance (TLC behaviours replayed into the code; code traces validated by TLC)",
         "design_ref": "DESIGN.md §6.6",
     },
 }
 
 SD = os.path.join(vlib.SPEC, "PullPipe")
-KNOWN_RULES = ["size-hint-upper-below-remaining-while-future-in-flight"]
+KNOWN_RULES = []        # rules the transcribed code is known to break (none since fix e45f3244bc3)
+FMA_RULE = "size-hint-upper-below-remaining-while-future-in-flight"
 FMA_FP = "pull/filter_map_async/size-hint-upper-ignores-in-flight-future"
 
 # (job name, GROUP, L, P, VALS, HMS) per tier
 QUICK = [
-    ("unary", "unary", 3, 2, "{0, 1, 2}", "{0}"),
-    ("unary-hints", "unary", 2, 1, "{0, 1, 2}", "{1, 2}"),
+    ("unary", "unary", 3, 1, "{0, 1, 2}", "{0}"),
+    ("unary-2pend-hints", "unary", 2, 2, "{0, 1, 2}", "{0, 1}"),
     ("binary", "binary", 2, 1, "{0, 1, 2}", "{0}"),
     ("future", "future", 2, 1, "{0, 1, 2}", "{0}"),
     ("flavour", "flavour", 2, 1, "{0, 1, 2}", "{0}"),
     ("nonfused", "nonfused", 2, 1, "{1, 2}", "{0}"),
-    ("comp_uu", "comp_uu", 2, 1, "{1, 2}", "{0}"),
+    ("comp_uu", "comp_uu", 1, 1, "{1, 2}", "{0}"),
     ("comp_ub", "comp_ub", 1, 1, "{1, 2}", "{0}"),
-    ("comp_bu", "comp_bu", 1, 1, "{1, 2}", "{0}"),
+    ("comp_bu", "comp_bu", 1, 1, "{2}", "{0}"),
 ]
 THOROUGH = [
     ("unary", "unary", 4, 2, "{0, 1, 2}", "{0}"),
     ("unary-hints", "unary", 3, 2, "{0, 1, 2}", "{1, 2}"),
+    ("unary-unknown-hints", "unary", 2, 1, "{0, 1, 2}", "{2}"),
     ("binary", "binary", 2, 2, "{0, 1, 2}", "{0}"),
     ("binary-hints", "binary", 2, 1, "{0, 1}", "{1, 2}"),
     ("future", "future", 3, 2, "{0, 1, 2}", "{0}"),
@@ -82,7 +84,7 @@ def _fingerprint(tree, rule, flat_bad):
     """pull/<combinator>/<rule>.  A violation seen on a composed tree is attributed to a combinator of
     the tree that already breaks a rule on its own (over plain scripted upstreams) in this run, so one
     defect gives one fingerprint per rule instead of one per composition."""
-    if rule == KNOWN_RULES[0]:
+    if rule == FMA_RULE:
         return FMA_FP
     if not _is_flat(tree):
         ks = _kinds(tree)
@@ -205,7 +207,7 @@ def run(tier):
     res.samples.append({"kind": "replayed TLC behaviour (composition)", "tree": c2["tree"], "scripts": c2["scripts"], "ref": c2["ref"]})
 
     # (4) code -> spec: seeded random deeper trees, longer scripts
-    count = 40000 if thorough else 4000
+    count = 40000 if thorough else 2500
     rtrace = os.path.join(d, "random_trace.ndjson")
     p = vlib.run_bin(exe, ["random", count, 20 if thorough else 8, 10 if thorough else 4, rtrace])
     if p.returncode != 0:
@@ -238,7 +240,7 @@ def run(tier):
     for case, what in drift[:5]:
         res.drift.append({"kind": "implementation fact: " + what, "group": "random", "case": case})
     res.distinct_nontrivial = len(keys)
-    flat_bad = {(t["k"], rule) for (t, rule, _, _) in found if _is_flat(t) and rule != KNOWN_RULES[0]}
+    flat_bad = {(t["k"], rule) for (t, rule, _, _) in found if _is_flat(t) and rule != FMA_RULE}
     found.sort(key=lambda x: (not _is_flat(x[0]), len(json.dumps(x[3]["scripts"]))))   # smallest flat witnesses first
     for t, rule, what, rep in found:
         res.violation(_fingerprint(t, rule, flat_bad), what, rep)
